@@ -182,3 +182,5 @@ def check(ctx):
                                       (o[1] == "Lt" and is_call_result(A("load"))(simplify(o[3])) and is_const(0)(simplify(o[2])))):
                     ok = True
         ctx.ob("R-EXIT", F + "::is_fired", "flag/is-fired-positive", ok, "is_fired() is `cnt.load() > 0`" if ok else "is_fired() is no longer `cnt.load() > 0`", f.where())
+    ctx.import_rules("C02", r"^(sync-blocker|blocker|fast-blocker|thread-park)/")
+    sync_wrapper_forwarding(ctx)
